@@ -33,6 +33,7 @@ var vC10Catalogue = []vProxyCfg{
 	/*11*/ {linkLocal: true, v6: true},
 	/*12*/ {loopback: true, proxies: []string{"2001:db8::/32"}, v6: true},
 	/*13*/ {linkLocal: true, mapped: true},
+	/*14*/ {proxies: []string{"2001:db8::1"}, v6: true},
 }
 
 // vIn4 reports whether the 4-byte address a is inside base/bits.
@@ -98,6 +99,14 @@ func vTrusted6(pc *vProxyCfg, a []byte, ci int) bool {
 	}
 	if ci == 12 {
 		t = vOr(t, vAnd(vAnd(a[0] == 0x20, a[1] == 0x01), vAnd(a[2] == 0x0d, a[3] == 0xb8)))
+	}
+	if ci == 14 {
+		// a bare address is that one host
+		eq := vAnd(vAnd(a[0] == 0x20, a[1] == 0x01), vAnd(a[2] == 0x0d, a[3] == 0xb8))
+		for k := 4; k < 15; k++ {
+			eq = vAnd(eq, a[k] == 0)
+		}
+		t = vOr(t, vAnd(eq, a[15] == 1))
 	}
 	return t
 }
@@ -265,4 +274,37 @@ func VH_C10_trust(caseID int) {
 	// (e) secure <=> https
 	vAssert(with.secure == (with.scheme == "https"), "secure-iff-https")
 	vAssert(without.secure == (without.scheme == "https"), "secure-iff-https-2")
+}
+
+// VH_C10_list: with IP validation the client IP is the first syntactically valid entry of the
+// forwarding header, whatever invalid entries precede it. case = sep*2 + family of the valid entry.
+func VH_C10_list(caseID int) {
+	good := []string{"198.51.100.9", "2001:db8::5"}[caseID%2]
+	sep := []string{", ", ","}[(caseID/2)%2]
+	app := New(Config{TrustProxy: true, ProxyHeader: "X-Forwarded-For", EnableIPValidation: true,
+		TrustProxyConfig: TrustProxyConfig{Loopback: true}})
+	bad := vString("bad", vLen("badlen", 1, 3))
+	for i := 0; i < len(bad); i++ {
+		c := bad[i]
+		vAssume(vOr(vOr(vAnd(c >= '0', c <= '9'), vAnd(c >= 'a', c <= 'f')), vOr(c == '.', c == ':')))
+		// no "::": nothing this short is then an address
+		if i > 0 {
+			vAssume(!vAnd(bad[i-1] == ':', c == ':'))
+		}
+	}
+	fctx := &fasthttp.RequestCtx{}
+	fctx.Request.Header.SetMethod("GET")
+	fctx.Request.SetRequestURI("/")
+	fctx.Request.Header.Set("X-Forwarded-For", bad+sep+good)
+	fctx.SetRemoteAddr(&net.TCPAddr{IP: net.IP{127, 0, 0, 1}, Port: 4000})
+	c := app.AcquireCtx(fctx)
+	ip := c.IP()
+	ips := c.IPs()
+	app.ReleaseCtx(c)
+	vAssert(ip == good, "first-valid-entry")
+	vAssert(len(ips) == 1, "only-valid-entries-listed")
+	if len(ips) == 1 {
+		vAssert(ips[0] == good, "valid-entry-listed")
+	}
+	vReach("listed")
 }
